@@ -15,6 +15,16 @@ import (
 
 const verifDir = "/verif"
 
+// outDir: where evidence and replay files go; QV_OUT redirects them (used when checking scratch copies with seeded
+// changes, so that the committed evidence of the real tree is not overwritten)
+func outDir() string {
+	if d := os.Getenv("QV_OUT"); d != "" {
+		os.MkdirAll(filepath.Join(d, "evidence"), 0o755)
+		return d
+	}
+	return verifDir
+}
+
 // properties whose obligations are attached by kind (frame, no-panic) rather than by a function's props
 var crossCutting = map[string]bool{"C01": true, "C10": true, "C11": true}
 
@@ -89,9 +99,20 @@ func cmdCheck(args []string) int {
 		writeEvidence(prop, *tier, seed, conf, nil, nil, nil, nil, time.Since(t0).Seconds(), []string{"load error: " + err.Error()}, 0, nil)
 		return 2
 	}
+	// obligations of the property, closed under what their proofs lean on: a frame / panic / post obligation of a
+	// function is proved under the function's loop invariants and the callees' contracts, so the obligations that
+	// establish those invariants (loop/init, loop/preserve) and the preconditions at its call sites (pre@call) belong to
+	// the same check whatever property they are tagged with
 	var obls []*Obligation
+	funcsOfProp := map[string]bool{}
 	for _, o := range append(gr.obls, gr.lemmas...) {
 		if hasProp(o.Props, prop) {
+			funcsOfProp[o.Func] = true
+		}
+	}
+	for _, o := range append(gr.obls, gr.lemmas...) {
+		supporting := (o.Kind == "loop/init" || o.Kind == "loop/preserve" || o.Kind == "pre@call") && funcsOfProp[o.Func]
+		if hasProp(o.Props, prop) || supporting {
 			obls = append(obls, o)
 		}
 	}
@@ -184,7 +205,7 @@ func cmdCheck(args []string) int {
 			exit = 2
 		}
 	}
-	if len(vac) > 0 {
+	if len(vac) > 0 && exit == 0 {
 		exit = 2
 	}
 	if len(results) == 0 && len(conf.Bounded) == 0 {
@@ -259,7 +280,7 @@ func matchKnownBounded(known []knownFinding, prop, harness, input string) *known
 func replayHasInput(r *oblResult) bool { return false }
 
 func writeReplay(prop string, r *oblResult) string {
-	dir := filepath.Join(verifDir, "replays", prop)
+	dir := filepath.Join(outDir(), "replays", prop)
 	os.MkdirAll(dir, 0o755)
 	base := filepath.Join(dir, sanitize(r.O.Name))
 	os.WriteFile(base+".smt2", []byte(r.Scr), 0o644)
@@ -454,7 +475,7 @@ func writeEvidence(prop, tier string, seed int, conf propConf, gr *genResult, re
 		"wall_s":      round3(wall),
 		"violations":  violations,
 	}
-	writeJSON(filepath.Join(verifDir, "evidence", prop+".json"), ev)
+	writeJSON(filepath.Join(outDir(), "evidence", prop+".json"), ev)
 }
 
 func round3(f float64) float64 { return float64(int(f*1000+0.5)) / 1000 }
